@@ -125,6 +125,9 @@ func Build(w *kernel.World, cfg Cfg, wr *Wrappers) *Deployment {
 			ob = wr.Orca("batch", ob)
 		}
 		if cfg.Locked {
+			// another service's lock set comes into being between the two calls (rend allows
+			// several lock sets per process): the batch port must still get the one it names
+			lockedConst(orcas.L1Only, false, 3)
 			ob = orcas.LockedWithExisting(ob, d.Slot)
 		}
 		lb := w.AddListener("batch")
